@@ -79,7 +79,7 @@ func (p *Parser) parseHeader(data []byte) (header *parser.PacketHeader, buf []by
 			return
 		}
 
-		attachments, err := strconv.ParseUint(string(data[:i]), 10, 0)
+		attachments, err := strconv.ParseUint(string(data[:i]), 10, 31)
 		if err != nil {
 			return nil, nil, "", err
 		}
